@@ -230,7 +230,7 @@ class HomogenizationParameters:
                  postProcessArgs = None):
         self.setHomogenizationFunction(homogenizationFunction)
 
-        self.labyrinthFactor = labyrinthFactor
+        self.setLabyrinthFactor(labyrinthFactor)
 
         self.setPostProcessFunction(postProcessFunction, postProcessArgs)
         self.eps = eps
